@@ -1078,19 +1078,19 @@ def degrees_full_case(draw):
 
 LAWS = [
     Law("ideal_endpoints", chords_case(), body_ideal_endpoints, nt_any, quick=300,
-        thorough=4500, shards=(2, 6)),
+        thorough=3600, shards=(2, 6)),
     Law("circle_through_endpoints_orthogonal", chords_case(), body_circle_orthogonal,
-        nt_sphere, quick=300, thorough=4500, shards=(2, 6)),
-    Law("arc_is_the_segment", arc_case(), body_arc, nt_main, quick=300, thorough=4500,
+        nt_sphere, quick=300, thorough=3600, shards=(2, 6)),
+    Law("arc_is_the_segment", arc_case(), body_arc, nt_main, quick=300, thorough=3600,
         shards=(2, 8)),
     Law("degrees_vs_radians", degrees_full_case(), body_degrees, nt_any, quick=80,
         thorough=1500, shards=(1, 2)),
     Law("straight_line_limit", straight_case(), body_straight, lambda l: True, quick=300,
-        thorough=4500, shards=(1, 4)),
+        thorough=3600, shards=(1, 4)),
     Law("horosphere_sphere", horosphere_case(), body_horosphere, nt_any, quick=300,
-        thorough=4500, shards=(1, 4)),
+        thorough=3600, shards=(1, 4)),
     Law("horoarc_excludes_centre", horoarc_case(), body_horoarc, nt_any, quick=300,
-        thorough=4500, shards=(1, 4)),
+        thorough=3600, shards=(1, 4)),
     Law("subspace_sphere_contains_ideal_points", subspace_case(), body_subspace, nt_any,
         quick=250, thorough=3600, shards=(2, 6)),
 ]
